@@ -75,7 +75,7 @@ def strict_strategy(draw):
     else:
         text, bg, meta = draw(optim.uniform_pairs())
     if draw(st.integers(0, 9)) == 0:
-        targ, kind = draw(gc.translucent_near(text, bg))
+        targ, kind = draw(gc.translucent_near(text, bg, css4=True))
         tkind = "translucent:" + kind
     else:
         targ, tkind, _ = draw(gc.spell(text))
